@@ -68,6 +68,9 @@ func HaysFor(pattern string) []string {
 func Units(thorough bool) []Unit {
 	var out []Unit
 	for pi, p := range Programs {
+		if !thorough && pi%2 == 1 {
+			continue // quick: every other program (one per strategy family); thorough: all
+		}
 		hs := HaysFor(p)
 		var calls []Call
 		for _, a := range APIs {
@@ -119,7 +122,7 @@ var RunUnit func(w *harness.W, u Unit, bound int, capExec int)
 func Plan(tier string) *harness.Plan {
 	thorough := tier == "thorough"
 	units := Units(thorough)
-	bound, capExec := 2, 3000
+	bound, capExec := 2, 1200
 	budget := 150 * time.Second
 	if thorough {
 		bound, capExec, budget = 2, 200000, 40*time.Minute
